@@ -442,6 +442,9 @@ class _Context:
                     found_global_or_nonlocal = True
 
                 parent = name.parent
+                if parent.type == 'tfpdef':
+                    # An annotated parameter.
+                    parent = parent.parent
                 if parent.type == 'param' and parent.name == name:
                     # Skip those here, these definitions belong to the next
                     # scope.
